@@ -178,6 +178,16 @@ fn run_case(c: &Case, out: &mut dyn Write) {
     let same = conc_view == serial_view;
     let diff = if same { Value::Null } else { json!(semantic::first_diff(&serial_view, &conc_view, "")) };
     let rets_same = results == serial_rets;
+    let mut ret_diffs: Vec<Value> = vec![];
+    for (i, v) in &results {
+        let sv = serial_rets.get(i).cloned().unwrap_or_default();
+        for (k, (op, ret)) in v.iter().enumerate() {
+            let sret = sv.get(k).map(|x| x.1.clone()).unwrap_or_default();
+            if *ret != sret {
+                ret_diffs.push(json!([op.split_whitespace().next().unwrap_or("?"), ret, sret]));
+            }
+        }
+    }
     let edges_json: Vec<Value> = edges.iter().map(|(a, b)| json!([a, b])).collect();
     for (i, v) in &results {
         for (op, ret) in v {
@@ -189,7 +199,7 @@ fn run_case(c: &Case, out: &mut dyn Write) {
         "workers_ms": workers_ms, "sched_stopped": sched_done, "edges": edges_json,
         "rets": results.iter().map(|(i, v)| (i.to_string(), json!(v))).collect::<serde_json::Map<_, _>>(),
         "serial_rets": serial_rets.iter().map(|(i, v)| (i.to_string(), json!(v))).collect::<serde_json::Map<_, _>>(),
-        "rets_same": rets_same, "state_same": same, "diff": diff,
+        "rets_same": rets_same, "ret_diffs": ret_diffs, "state_same": same, "diff": diff,
         "content_serial": content_serial, "content_serial_after_idle_update": content_serial_after,
         "staged_pending": staged_pending, "disk_serial": disk_serial, "written_serials": written_serials,
         "rp_problems": conc_view.get("rp").and_then(|r| r.get("problems")).cloned().unwrap_or(Value::Null),
